@@ -27,6 +27,8 @@ type HarnessSpec struct {
 	MaxSteps int
 	AllowPanic bool
 	AlwaysFeas bool
+	NoNative   bool // harness cannot run natively (engine-only scheduling features)
+	MonoTime   bool // model Time arithmetic on monotonic readings as int64 arithmetic
 	Bounds   string // human description of the bounds
 	Outside  string
 	Params   map[string]int // harness parameters by tier, read via zzParam
